@@ -160,7 +160,9 @@ def _buildtree(chk, repo, ci, names):
     problems = []
     s_t = [t for t in g.tests() if _norm(t.ast) == "s_prime==1" and g.requires_edge(t, bt, "F")]
     if len(s_t) != 1:
-        raise AnchorError(f"{inst}: guard s_prime == 1 not found in the recursion")
+        chk.fail("C08-R3", inst + "/recursion", site(repo, bt.ast), "the second subtree is built although the first one may already have stopped "
+                 "(no `s_prime == 1` guard in the recursion): states beyond a U-turn/divergence are counted and can be selected", fn)
+        return
     st = s_t[0]
     calls = [n for n in g.nodes if n.ast is not None and n.kind == "stmt" and isinstance(n.ast, ast.Assign)
              and isinstance(n.ast.value, ast.Call) and call_name(n.ast.value) == "self._BuildTree"]
